@@ -222,6 +222,13 @@ def endpoint(repo, chk, on_write):
     chk.touch(ch)
     gc = ch.cfg()
     bufs = set(bufset) | ({'self._buffers[sock]', 'self._buffers.get(sock)'} if 'sock' in ch.params or 'self._buffers' in buf else set())
+    if 'self._buffers' in buf:
+        # whatever the loop variable over the sockets to close is called (the same-socket obligation below ties it to the socket that is closed)
+        for w in walk_no_defs(ch.node):
+            if isinstance(w, ast.Subscript) and src(w.value) == 'self._buffers' and isinstance(w.slice, ast.Name):
+                bufs |= {f'self._buffers[{w.slice.id}]', f'self._buffers.get({w.slice.id})'}
+            if isinstance(w, ast.Call) and call_name(w) == 'self._buffers.get' and w.args and isinstance(w.args[0], ast.Name):
+                bufs |= {f'self._buffers[{w.args[0].id}]', f'self._buffers.get({w.args[0].id})'}
     ccl = [n for n in gc.nodes if n.kind == 'stmt' and any(r == 'self' for r, _c in pat.method_calls(n.ast, '_close'))]
     need(ccl, f'C11.c: {ch.ref} never closes')
     for cn in ccl:
@@ -272,7 +279,7 @@ def endpoint(repo, chk, on_write):
                    discr='buffer-only-connected')
     # --- d: nothing outside _close takes the writer interest away while data is buffered (discard() removes both interests)
     for m_ in cls.methods.values():
-        if m_.name in ('_close',) or m_ is on_write:
+        if m_.name in ('_close',) or m_ is on_write or getattr(m_, 'absorbed', False):
             continue
         gm = m_.cfg()
         for n in gm.nodes:
@@ -287,7 +294,7 @@ def endpoint(repo, chk, on_write):
                    q is None, loc(m_, n.ast), discr=f'writer-kept:{m_.name}')
     # --- c: a connection leaves the client list (outside _close) only when nothing is buffered for it: the write path serves client sockets only
     for m_ in cls.methods.values():
-        if m_.name == '_close':
+        if m_.name == '_close' or getattr(m_, 'absorbed', False):
             continue
         gm = m_.cfg()
         for n in gm.nodes:
